@@ -1,6 +1,6 @@
-(* Model of length/length.go, part 1: line splitting.  (Rune and display-cell
-   measures are added for C18.) *)
-From Tab Require Export Base.Bytes.
+(* Model of length/length.go: line splitting, the three string measures and
+   the three longest-line functions. *)
+From Tab Require Export Base.Bytes Base.Utf8.
 
 (* strings.Split(s, "\n"): never empty *)
 Fixpoint split_lf (s : bytes) : list bytes :=
@@ -39,3 +39,69 @@ Qed.
 (* total version, for specs and statements *)
 Definition lines_of (s : bytes) : list bytes :=
   match lines s with Ok ls => ls | _ => [] end.
+
+(* ---- the three measures *)
+
+(* StringBytes: len(s) *)
+Definition string_bytes (s : bytes) : nat := length s.
+
+(* StringRunes: utf8.RuneCountInString(s) *)
+Definition string_runes (s : bytes) : nat := rune_count s.
+
+(* StringCells: runewidth.StringWidth(s) (go-runewidth v0.0.14, runewidth.go):
+
+     g := uniseg.NewGraphemes(s)
+     for g.Next() {
+         var chWidth int
+         for _, r := range g.Runes() {
+             chWidth = c.RuneWidth(r)
+             if chWidth > 0 { break }
+         }
+         width += chWidth
+     }
+
+   The grapheme segmentation (uniseg) and the per-rune width table are
+   external: [seg s] is the list of clusters of s, each a list of runes, and
+   [rw] is RuneWidth.  Nothing is assumed about them here; the theorems that
+   need it state their hypotheses (Spec/Length.v). *)
+Section Cells.
+  Variable seg : bytes -> list (list Z).
+  Variable rw : Z -> nat.
+
+  (* inner loop: the width of the first rune of non-zero width, else 0 *)
+  Fixpoint cluster_width (cl : list Z) : nat :=
+    match cl with
+    | [] => 0
+    | r :: rest => let w := rw r in if 0 <? w then w else cluster_width rest
+    end.
+
+  Definition string_cells (s : bytes) : nat :=
+    fold_left (fun width cl => width + cluster_width cl) (seg s) 0.
+End Cells.
+
+(* ---- LongestLineBytes / LongestLineRunes / LongestLineCells: the three Go
+   functions are the same text with a different measure [m]:
+
+     ss := Lines(s)
+     switch len(ss) { case 0: return 0; case 1: return m(ss[0]) }
+     max := 0
+     for i := range ss { t := m(ss[i]); if t > max { max = t } }
+     return max *)
+Definition longest_line_with (m : bytes -> nat) (s : bytes) : res nat :=
+  bind (lines s) (fun ss =>
+  match length ss with
+  | 0 => Ok 0
+  | 1 => bind (idx ss 0) (fun l => Ok (m l))
+  | _ =>
+      fold_left
+        (fun acc i =>
+           bind acc (fun mx =>
+           bind (idx ss i) (fun l =>
+           let t := m l in Ok (if mx <? t then t else mx))))
+        (seq 0 (length ss)) (Ok 0)
+  end).
+
+Definition longest_line_bytes (s : bytes) : res nat := longest_line_with string_bytes s.
+Definition longest_line_runes (s : bytes) : res nat := longest_line_with string_runes s.
+Definition longest_line_cells (seg : bytes -> list (list Z)) (rw : Z -> nat) (s : bytes) : res nat :=
+  longest_line_with (string_cells seg rw) s.
